@@ -94,11 +94,24 @@ pub struct Opts {
 pub struct BuildCase {
     pub input: Vec<u8>,
     pub opts: Opts,
+    /// Builder reuse: when Some, the SAME QRBuilder is first configured with these options (a subset of the keys of
+    /// `opts`, with other values) and built once; then the setters are called again with the final `opts` and the
+    /// build under test is made. Setters are last-value-wins, so the result must equal that of a fresh builder.
+    pub warm: Option<Opts>,
+    /// Related predecessor: before the builder under test is even created, another builder is built on the same thread
+    /// and dropped. 0 none; 1 same input at another level; 2 the input extended by a character of a wider class;
+    /// 3 same length, other content, same options (its buffer is freed just before the input under test is allocated);
+    /// 4 the input without its last character; 5 the same input with every option automatic; 6 the input extended by
+    /// a character of the same class. Building is a pure function, so none of this may change the result.
+    pub pred: u8,
 }
 
 impl std::fmt::Debug for BuildCase {
     fn fmt(&self, f: &mut std::fmt::Formatter<'_>) -> std::fmt::Result {
-        write!(f, "BuildCase{{len={}, opts={:?}, input={}}}", self.input.len(), self.opts, short_bytes(&self.input))
+        match &self.warm {
+            None => write!(f, "BuildCase{{len={}, opts={:?}, input={}}}", self.input.len(), self.opts, short_bytes(&self.input)),
+            Some(w) => write!(f, "BuildCase{{len={}, opts={:?}, same builder first built with {:?}, input={}}}", self.input.len(), self.opts, w, short_bytes(&self.input)),
+        }
     }
 }
 
@@ -112,7 +125,39 @@ pub fn short_bytes(b: &[u8]) -> String {
 
 impl BuildCase {
     pub fn new(input: Vec<u8>, opts: Opts) -> Self {
-        BuildCase { input, opts }
+        BuildCase { input, opts, warm: None, pred: 0 }
+    }
+
+    /// The same case with a builder warm-up derived from `sel` (None for 3 values of `sel` out of 4). Only options
+    /// that the final configuration also sets may be set during the warm-up (an option cannot be un-set again).
+    pub fn with_warm_sel(mut self, sel: u16) -> Self {
+        self.pred = [0u8, 0, 0, 0, 0, 0, 0, 0, 1, 2, 3, 4, 5, 6, 1, 3][(sel >> 12) as usize & 15];
+        if sel % 4 != 0 {
+            return self;
+        }
+        let s = (sel >> 2) as usize;
+        let o = &self.opts;
+        let warm = Opts {
+            mode: if s & 1 == 0 { o.mode } else { None },
+            level: o.level.and_then(|l| match (s >> 1) % 3 {
+                0 => None,
+                1 => Some(Level::from_index((l as usize + 1 + (s >> 3) % 3) % 4)),
+                _ => Some(l),
+            }),
+            version: o.version.and_then(|v| match (s >> 5) % 4 {
+                0 => None,
+                1 => Some(1 + (v + (s >> 7) % 39) % 40),
+                2 => Some(40),
+                _ => Some(v),
+            }),
+            mask: o.mask.and_then(|m| match (s >> 9) % 3 {
+                0 => None,
+                1 => Some((m + 1 + ((s >> 11) % 7) as u8) % 8),
+                _ => Some(m),
+            }),
+        };
+        self.warm = Some(warm);
+        self
     }
 
     pub fn to_json(&self) -> Value {
@@ -124,6 +169,8 @@ impl BuildCase {
             "level": self.opts.level.map(|l| l.name()),
             "version": self.opts.version,
             "mask": self.opts.mask,
+            "predecessor": self.pred,
+            "warm_builder": self.warm.as_ref().map(|w| json!({"mode": w.mode.map(|m| m.name()), "level": w.level.map(|l| l.name()), "version": w.version, "mask": w.mask})),
         })
     }
 
@@ -154,15 +201,101 @@ impl BuildCase {
         };
         let version = v.get("version").and_then(|x| x.as_u64()).map(|x| x as usize);
         let mask = v.get("mask").and_then(|x| x.as_u64()).map(|x| x as u8);
-        Some(BuildCase { input, opts: Opts { mode, level, version, mask } })
+        let warm = v.get("warm_builder").filter(|w| w.is_object()).map(|w| Opts {
+            mode: match w.get("mode").and_then(|x| x.as_str()) {
+                Some("Numeric") => Some(Mode::Numeric),
+                Some("Alphanumeric") => Some(Mode::Alphanumeric),
+                Some("Byte") => Some(Mode::Byte),
+                _ => None,
+            },
+            level: match w.get("level").and_then(|x| x.as_str()) {
+                Some("L") => Some(Level::L),
+                Some("M") => Some(Level::M),
+                Some("Q") => Some(Level::Q),
+                Some("H") => Some(Level::H),
+                _ => None,
+            },
+            version: w.get("version").and_then(|x| x.as_u64()).map(|x| x as usize),
+            mask: w.get("mask").and_then(|x| x.as_u64()).map(|x| x as u8),
+        });
+        let pred = v.get("predecessor").and_then(|x| x.as_u64()).unwrap_or(0) as u8;
+        Some(BuildCase { input, opts: Opts { mode, level, version, mask }, warm, pred })
     }
 
     pub fn hash(&self) -> u64 {
         crate::engine::hash_value(&self.to_json())
     }
 
+    fn run_predecessor(&self) {
+        if self.pred == 0 {
+            return;
+        }
+        let mode_in_effect = self.effective_mode();
+        let same_class = |b: u8| -> u8 {
+            match mode_in_effect {
+                Mode::Numeric => b'0' + (b.wrapping_sub(b'0') + 7) % 10,
+                Mode::Alphanumeric => refmodel::tables::ALNUM_SET[(refmodel::tables::alnum_value(b).unwrap_or(0) as usize + 11) % 45],
+                Mode::Byte => b ^ 0x21,
+            }
+        };
+        let (input, opts): (Vec<u8>, Opts) = match self.pred {
+            1 => {
+                let mut o = self.opts.clone();
+                o.level = Some(Level::from_index((self.effective_level() as usize + 1 + self.input.len() % 3) % 4));
+                (self.input.clone(), o)
+            }
+            2 => {
+                // one more character, of the next wider class; modes can then only stay forced if they still contain it
+                let mut v = self.input.clone();
+                v.push(match mode_in_effect {
+                    Mode::Numeric => b'A',
+                    _ => b'a',
+                });
+                let mut o = self.opts.clone();
+                o.mode = if o.mode == Some(Mode::Byte) { o.mode } else { None };
+                (v, o)
+            }
+            3 => (self.input.iter().map(|&b| same_class(b)).collect(), self.opts.clone()),
+            4 => {
+                let mut v = self.input.clone();
+                v.pop();
+                (v, self.opts.clone())
+            }
+            5 => (self.input.clone(), Opts::default()),
+            _ => {
+                let mut v = self.input.clone();
+                v.push(same_class(*self.input.last().unwrap_or(&b'1')));
+                (v, self.opts.clone())
+            }
+        };
+        let p = BuildCase { input, opts, warm: None, pred: 0 };
+        let _ = catch(move || {
+            let b = p.builder();
+            let r = b.build().map(|q| q.size);
+            drop(b);
+            r
+        });
+    }
+
     pub fn builder(&self) -> QRBuilder {
+        self.run_predecessor();
         let mut b = QRBuilder::new(self.input.clone());
+        if let Some(w) = &self.warm {
+            if let Some(m) = w.mode {
+                b.mode(f_mode(m));
+            }
+            if let Some(l) = w.level {
+                b.ecl(f_level(l));
+            }
+            if let Some(v) = w.version {
+                b.version(f_version(v));
+            }
+            if let Some(m) = w.mask {
+                b.mask(f_mask(m));
+            }
+            // the warm-up build may succeed, fail or panic; only the build after it is under test
+            let _ = catch(|| b.build().map(|q| q.size));
+        }
         if let Some(m) = self.opts.mode {
             b.mode(f_mode(m));
         }
